@@ -1,9 +1,12 @@
 package props
 
 import (
+	"context"
 	"fmt"
+	"unsafe"
 
 	"github.com/koron-go/z80"
+	"github.com/koron-go/z80/verif/mon"
 )
 
 func init() {
@@ -80,6 +83,144 @@ regs:
 	if cpu.AF.Lo != 0x41 || !cpu.GetFlag(z80.FlagZ) || cpu.GetFlag(z80.FlagS) {
 		c.R.Violation("C16/via-CPU", map[string]interface{}{"F": h8(cpu.AF.Lo)})
 	}
+	// the same accessors reached through a CPU at different moments of its life: fresh,
+	// after an ordinary Step, right after a Step that accepted a request (a host trap at
+	// 0038h/0066h edits flags there), after Run returned (HALT, break point, cancelled
+	// context), and from inside a memory callback in the middle of an instruction
+	{
+		sweep := func(label string, cpu *z80.CPU) {
+			a0 := cpu.AF.Hi
+			bcdehl := [3]z80.Register{cpu.BC, cpu.DE, cpu.HL}
+			for mask := 0; mask < 256; mask++ {
+				for f := 0; f < 256; f += 1 + mask%3 {
+					cpu.AF.Lo = uint8(f)
+					got := cpu.GetFlag(z80.Flag(mask))
+					cpu.SetFlag(z80.Flag(mask))
+					fs := cpu.AF.Lo
+					cpu.AF.Lo = uint8(f)
+					cpu.ResetFlag(z80.Flag(mask))
+					fr := cpu.AF.Lo
+					evals += 3
+					if got != (f&mask != 0) || fs != uint8(f|mask) || fr != uint8(f)&^uint8(mask) || cpu.AF.Hi != a0 || bcdehl != [3]z80.Register{cpu.BC, cpu.DE, cpu.HL} {
+						c.R.Violation("C16/via-CPU/"+label, map[string]interface{}{"when": label, "mask": h8(uint8(mask)), "F": h8(uint8(f)),
+							"GetFlag": got, "F_after_SetFlag": h8(fs), "F_after_ResetFlag": h8(fr), "A": h8(cpu.AF.Hi), "A_before": h8(a0)})
+						return
+					}
+				}
+			}
+			// the alternate set is a GPR of its own
+			cpu.Alternate.AF.Lo = 0x00
+			cpu.Alternate.SetFlag(z80.FlagS | z80.FlagN)
+			cpu.Alternate.ResetFlag(z80.FlagN)
+			evals += 2
+			if cpu.Alternate.AF.Lo != 0x80 || !cpu.Alternate.GetFlag(z80.FlagS) {
+				c.R.Violation("C16/via-CPU-alternate/"+label, map[string]interface{}{"when": label, "F_alt": h8(cpu.Alternate.AF.Lo)})
+			}
+		}
+		mk := func(code ...uint8) (*z80.CPU, *mon.Mem) {
+			m := &mon.Mem{}
+			m.FillByte(0x00)
+			m.Place(0x0100, code...)
+			cpu := &z80.CPU{Memory: m, IO: &mon.IO{}}
+			cpu.PC, cpu.SP = 0x0100, 0x8000
+			cpu.AF.Hi = 0x5a
+			cpu.BC.SetU16(0x1234)
+			cpu.DE.SetU16(0x5678)
+			cpu.HL.SetU16(0x9abc)
+			return cpu, m
+		}
+		cpu, _ := mk()
+		sweep("fresh", cpu)
+		cpu.Step()
+		sweep("after an ordinary Step", cpu)
+		for _, k := range []struct {
+			name string
+			im   int
+			it   *z80.Interrupt
+		}{{"NMI", 1, z80.NMIInterrupt()}, {"mode 1", 1, z80.IM1Interrupt()}, {"mode 2", 2, z80.IM2Interrupt(0x20)}, {"mode 0", 0, z80.IM0Interrupt(0xff)}} {
+			cpu, _ = mk()
+			cpu.IM, cpu.IFF1, cpu.Interrupt = k.im, true, k.it
+			cpu.Step()
+			sweep("right after the Step that accepted "+k.name, cpu)
+			cpu.Step()
+			sweep("one Step into the handler of "+k.name, cpu)
+		}
+		cpu, _ = mk(0x00, 0x00, 0x76)
+		cpu.Run(context.Background())
+		sweep("after Run ended on HALT", cpu)
+		cpu, _ = mk(0x00, 0x00, 0x00, 0x76)
+		cpu.BreakPoints = map[uint16]struct{}{0x0102: {}}
+		cpu.Run(context.Background())
+		sweep("after Run ended on a break point", cpu)
+		cctx, cancel := context.WithCancel(context.Background())
+		cancel()
+		cpu, _ = mk(0x18, 0xfe)
+		cpu.Run(cctx)
+		sweep("after Run ended on a cancelled context", cpu)
+		// from inside a memory callback: on return from the accessor the bits are as asked
+		// (what the instruction does to F afterwards is the instruction's business)
+		var m *mon.Mem
+		cpu, m = mk(0x34, 0x86, 0xcb, 0x46, 0x76) // INC (HL); ADD A,(HL); BIT 0,(HL); HALT
+		cpu.HL.SetU16(0x4000)
+		nIn := 0
+		m.Hook = func(mm *mon.Mem, a mon.Access) {
+			mask := uint8(0x41 + 2*nIn)
+			f0 := cpu.AF.Lo
+			cpu.SetFlag(z80.Flag(mask))
+			fs := cpu.AF.Lo
+			cpu.ResetFlag(z80.Flag(mask))
+			fr := cpu.AF.Lo
+			cpu.AF.Lo = f0
+			nIn++
+			evals += 2
+			if fs != f0|mask || fr != f0&^mask {
+				c.R.Violation("C16/via-CPU/inside a memory callback", map[string]interface{}{"when": fmt.Sprintf("inside the memory callback of access %c %04X during a Step", a.Kind, a.Addr),
+					"mask": h8(mask), "F": h8(f0), "F_after_SetFlag": h8(fs), "F_after_ResetFlag": h8(fr)})
+			}
+		}
+		for i := 0; i < 4; i++ {
+			cpu.Step()
+		}
+		m.Hook = nil
+		if nIn < 8 {
+			c.R.Inconclusive("C16: the memory callback was not reached")
+		}
+	}
+	// a GPR at every address alignment (inside a byte-packed record, e.g. a save-state
+	// with a few header bytes in front): GPR is made of bytes only, so any address is legal
+	{
+		var buf [64]byte
+		for off := 0; off < 16; off++ {
+			g := (*z80.GPR)(unsafe.Pointer(&buf[off]))
+			for mask := 0; mask < 256; mask++ {
+				for f := 0; f < 256; f++ {
+					for i := range buf {
+						buf[i] = 0xa5
+					}
+					g.AF = z80.Register{Hi: 0x3c, Lo: uint8(f)}
+					got := g.GetFlag(z80.Flag(mask))
+					g.SetFlag(z80.Flag(mask))
+					fs := g.AF.Lo
+					g.AF.Lo = uint8(f)
+					g.ResetFlag(z80.Flag(mask))
+					fr := g.AF.Lo
+					evals += 3
+					ok := got == (f&mask != 0) && fs == uint8(f|mask) && fr == uint8(f)&^uint8(mask) && g.AF.Hi == 0x3c
+					for i := range buf {
+						if i != off && i != off+1 && buf[i] != 0xa5 {
+							ok = false
+						}
+					}
+					if !ok {
+						c.R.Violation("C16/GPR-at-odd-address", map[string]interface{}{"address_mod_16": int(uintptr(unsafe.Pointer(g)) % 16), "offset_in_record": off,
+							"mask": h8(uint8(mask)), "F": h8(uint8(f)), "GetFlag": got, "F_after_SetFlag": h8(fs), "F_after_ResetFlag": h8(fr), "A": h8(g.AF.Hi)})
+						goto alignDone
+					}
+				}
+			}
+		}
+	alignDone:
+	}
 	for v := 0; v < 65536; v++ {
 		var r z80.Register
 		r.SetU16(uint16(v))
@@ -108,5 +249,5 @@ regs:
 	c.R.Set("evaluations", evals)
 	c.R.Set("distinct_nontrivial", evals-8)
 	c.R.Set("exhaustive", true)
-	c.R.Set("rule", fmt.Sprintf("complete enumeration: 256 masks x 256 F x 256 A for each of GetFlag/SetFlag/ResetFlag (result bit-exact, A, BC, DE, HL untouched), the 8 constants, all 65536 values for SetU16->U16 and Hi/Lo placement; every (accessor, mask, F, A) / (value) tuple is distinct by construction and all are counted except the 8 constant comparisons"))
+	c.R.Set("rule", fmt.Sprintf("complete enumeration: 256 masks x 256 F x 256 A for each of GetFlag/SetFlag/ResetFlag (result bit-exact, A, BC, DE, HL untouched), the 8 constants, all 65536 values for SetU16->U16 and Hi/Lo placement; the accessors again through a CPU at 14 moments of its life (fresh, after a Step, right after and one Step after accepting NMI / mode 0 / 1 / 2, after Run ended on HALT / break point / cancelled context, inside a memory callback in mid-instruction) and on a GPR placed at all 16 address alignments inside a byte record (neighbouring bytes untouched); every (accessor, mask, F, A) / (value) tuple is distinct by construction and all are counted except the 8 constant comparisons"))
 }
